@@ -3,6 +3,7 @@ package c14
 import (
 	"bytes"
 	"encoding/binary"
+	"errors"
 	"fmt"
 	"io"
 	"runtime/metrics"
@@ -74,6 +75,23 @@ type streamCase struct {
 	EOFWith bool      `json:"eof_with_data"`
 	Cuts    []int     `json:"cuts"`     // cut positions (mod len+1); nil with AllCuts=false: no cut checks
 	AllCuts bool      `json:"all_cuts"` // every position
+	// FailAt: before the message with this index (0 = none; counted from 1) the Encoder is asked to encode a message
+	// whose arena cannot deliver its second segment: that Encode fails and must leave no trace in the stream
+	FailAt int `json:"fail_at,omitempty"`
+}
+
+// brokenArena announces three segments and cannot load the second.
+type brokenArena struct{ first []byte }
+
+func (a brokenArena) NumSegments() int64 { return 3 }
+func (a brokenArena) Data(id capnp.SegmentID) ([]byte, error) {
+	if id == 0 {
+		return a.first, nil
+	}
+	return nil, errors.New("c14: segment unavailable")
+}
+func (a brokenArena) Allocate(capnp.Size, map[capnp.SegmentID]*capnp.Segment) (capnp.SegmentID, []byte, error) {
+	return 0, nil, errors.New("c14: read-only")
 }
 
 // encode writes all messages and returns the stream and the frame boundaries (byte offsets after each message).
@@ -90,6 +108,16 @@ func encode(c streamCase) ([]byte, []int, [][][]byte, error) {
 	for i, m := range c.Msgs {
 		segs := m.segments(i)
 		all = append(all, segs)
+		if c.FailAt == i+1 {
+			before := buf.Len()
+			bad := &capnp.Message{Arena: brokenArena{first: bytes.Repeat([]byte{0xEE}, 24)}}
+			if err := enc.Encode(bad); err == nil {
+				return nil, nil, nil, fmt.Errorf("Encode of a message whose second segment cannot be loaded reported success")
+			}
+			if buf.Len() != before {
+				return nil, nil, nil, fmt.Errorf("a failed Encode left %d bytes in the stream", buf.Len()-before)
+			}
+		}
 		msg := &capnp.Message{Arena: capnp.MultiSegment(hx.CloneSegs(segs))}
 		if err := enc.Encode(msg); err != nil {
 			return nil, nil, nil, err
@@ -247,14 +275,17 @@ func genChunks(t *rapid.T) []int {
 
 var _ = pbt.Register(pbt.Spec[streamCase]{
 	Property: "C14", Name: "stream",
-	Rule:     "0-6 messages of 1-5 (occasionally 511/512/513) segments of 0-4 (occasionally 255-600) words incl. empty segments, written by Encoder or PackedEncoder into one stream; decoders with/without ReuseBuffer over drawn reader chunkings (1-byte reads, data+EOF in one call). Oracle: independent unpacker/unframer parses the stream to the same segments with nothing trailing; Decode returns the same segment bytes/count/order (compared before the next Decode) then io.EOF; for drawn cut positions the decoded messages are a prefix of the originals and the terminal error is io.EOF iff the cut is a frame boundary. Non-trivial: >=2 messages with a multi-segment one.",
-	Quick:    6000, Thorough: 60000,
+	Rule:  "0-6 messages of 1-5 (occasionally 511/512/513) segments of 0-4 (occasionally 255-600) words incl. empty segments, written by Encoder or PackedEncoder into one stream (in a quarter of the cases the Encoder is also asked, between two messages, to encode a message whose arena cannot load its second segment: an error, and no trace in the stream); decoders with/without ReuseBuffer over drawn reader chunkings (1-byte reads, data+EOF in one call). Oracle: independent unpacker/unframer parses the stream to the same segments with nothing trailing; Decode returns the same segment bytes/count/order (compared before the next Decode) then io.EOF; for drawn cut positions the decoded messages are a prefix of the originals and the terminal error is io.EOF iff the cut is a frame boundary. Non-trivial: >=2 messages with a multi-segment one.",
+	Quick: 6000, Thorough: 60000,
 	Gen: func(t *rapid.T) streamCase {
 		c := streamCase{Packed: rapid.Bool().Draw(t, "packed"), Reuse: rapid.Bool().Draw(t, "reuse"), Chunks: genChunks(t), EOFWith: rapid.Bool().Draw(t, "eofwd")}
 		for i, n := 0, rapid.IntRange(0, 6).Draw(t, "nmsgs"); i < n; i++ {
 			c.Msgs = append(c.Msgs, genMsg(t))
 		}
 		c.Cuts = rapid.SliceOfN(rapid.IntRange(0, 1<<20), 0, 12).Draw(t, "cuts")
+		if len(c.Msgs) > 0 && rapid.IntRange(0, 3).Draw(t, "failenc") == 0 {
+			c.FailAt = rapid.IntRange(1, len(c.Msgs)).Draw(t, "failat")
+		}
 		return c
 	},
 	Run: runStream,
@@ -262,8 +293,8 @@ var _ = pbt.Register(pbt.Spec[streamCase]{
 
 var _ = pbt.Register(pbt.Spec[streamCase]{
 	Property: "C14", Name: "every-cut",
-	Rule:     "small streams (1-3 messages, <= ~30 words in total) cut at EVERY byte position (exhaustive per stream), plain and packed, with and without reuse; same oracle. Non-trivial: >=2 messages with a multi-segment one.",
-	Quick:    1500, Thorough: 15000,
+	Rule:  "small streams (1-3 messages, <= ~30 words in total) cut at EVERY byte position (exhaustive per stream), plain and packed, with and without reuse; same oracle. Non-trivial: >=2 messages with a multi-segment one.",
+	Quick: 1500, Thorough: 15000,
 	Gen: func(t *rapid.T) streamCase {
 		c := streamCase{Packed: rapid.Bool().Draw(t, "packed"), Reuse: rapid.Bool().Draw(t, "reuse"), Chunks: genChunks(t), EOFWith: rapid.Bool().Draw(t, "eofwd"), AllCuts: true}
 		for i, n := 0, rapid.IntRange(1, 3).Draw(t, "nmsgs"); i < n; i++ {
@@ -290,11 +321,11 @@ func allocBytes() uint64 {
 }
 
 type limitCase struct {
-	Header  hx.Bytes `json:"header"`  // bytes at the start of the stream
-	Tail    int      `json:"tail"`    // number of zero bytes following the header
-	Max     uint64   `json:"max"`     // Decoder.MaxMessageSize (0 = default)
-	Reuse   bool     `json:"reuse"`
-	Prior   int      `json:"prior"`   // with reuse: words of a valid message decoded before (buffer history)
+	Header hx.Bytes `json:"header"` // bytes at the start of the stream
+	Tail   int      `json:"tail"`   // number of zero bytes following the header
+	Max    uint64   `json:"max"`    // Decoder.MaxMessageSize (0 = default)
+	Reuse  bool     `json:"reuse"`
+	Prior  int      `json:"prior"` // with reuse: words of a valid message decoded before (buffer history)
 }
 
 func genHeader(t *rapid.T) []byte {
@@ -474,8 +505,8 @@ func clip(b []byte) []byte {
 
 var _ = pbt.Register(pbt.Spec[limitCase]{
 	Property: "C14", Name: "decode-limits",
-	Rule:     "stream headers with segment counts in {1..7, 510..514, 2^16, 2^31, 2^32-1}, size words in {0..5, 2^20..2^32-1} (sums crossing the limit), cut headers, followed by 0-4096 zero bytes; MaxMessageSize in {0=default, 1..7, 8, 16, 24, exact, exact-1, 4096, 1MiB, 2^34, 2^40, 2^64-8, 2^64-1 (the huge ones only when the header announces <= 64 MiB or an over-limit count)}; with/without ReuseBuffer and a previously decoded message. Oracle: no panic; bytes allocated by Decode (runtime/metrics /gc/heap/allocs:bytes delta, single goroutine) <= limit + 64 KiB, and <= 64 KiB whatever the limit when the count word exceeds 512; success => <= 513 segments, framed size <= limit, same segments as the independent unframer; a complete in-limit frame is not rejected. Non-trivial: header announces > 512 segments or Decode fails with a non-EOF error.",
-	Quick:    15000, Thorough: 150000,
+	Rule:  "stream headers with segment counts in {1..7, 510..514, 2^16, 2^31, 2^32-1}, size words in {0..5, 2^20..2^32-1} (sums crossing the limit), cut headers, followed by 0-4096 zero bytes; MaxMessageSize in {0=default, 1..7, 8, 16, 24, exact, exact-1, 4096, 1MiB, 2^34, 2^40, 2^64-8, 2^64-1 (the huge ones only when the header announces <= 64 MiB or an over-limit count)}; with/without ReuseBuffer and a previously decoded message. Oracle: no panic; bytes allocated by Decode (runtime/metrics /gc/heap/allocs:bytes delta, single goroutine) <= limit + 64 KiB, and <= 64 KiB whatever the limit when the count word exceeds 512; success => <= 513 segments, framed size <= limit, same segments as the independent unframer; a complete in-limit frame is not rejected. Non-trivial: header announces > 512 segments or Decode fails with a non-EOF error.",
+	Quick: 15000, Thorough: 150000,
 	Gen: func(t *rapid.T) limitCase {
 		c := limitCase{Header: genHeader(t), Reuse: rapid.Bool().Draw(t, "reuse")}
 		c.Tail = rapid.SampledFrom([]int{0, 8, 16, 40, 64, 4096}).Draw(t, "tail")
@@ -557,8 +588,8 @@ func runUnmarshal(c unmCase) (pbt.Result, error) {
 
 var _ = pbt.Register(pbt.Spec[unmCase]{
 	Property: "C14", Name: "unmarshal-bytes",
-	Rule:     "arbitrary byte strings: hostile headers (as above) + tails, valid frames, raw bytes; oracle: Unmarshal never panics, allocates <= 16*len+64KiB (the allocation counter advances in span-sized steps, hence the slack; minimum of three attempts), accepts exactly what the independent unframer accepts and yields the same segments. Non-trivial: input >= 8 bytes.",
-	Quick:    15000, Thorough: 150000,
+	Rule:  "arbitrary byte strings: hostile headers (as above) + tails, valid frames, raw bytes; oracle: Unmarshal never panics, allocates <= 16*len+64KiB (the allocation counter advances in span-sized steps, hence the slack; minimum of three attempts), accepts exactly what the independent unframer accepts and yields the same segments. Non-trivial: input >= 8 bytes.",
+	Quick: 15000, Thorough: 150000,
 	Gen: func(t *rapid.T) unmCase {
 		switch rapid.IntRange(0, 2).Draw(t, "src") {
 		case 0:
